@@ -7,7 +7,9 @@ import Utcp.Props.C04
 forced flush).  Proved here: the peek is a pure function that agrees with the acceptance test of the core;
 the cache is always sorted; its content after a batch does not depend on the arrival order; a forced flush feeds
 it to the core in ascending id order.  Together with C04 (`stale_inert`: a duplicate or overtaken datagram is
-inert wherever it lands) this is why reordering alone never drops or NAKs a packet.
+inert wherever it lands) this is why reordering alone never drops or NAKs a packet.  Over every sequence of arrivals
+(`nothing_dropped`): the wrapper hands every datagram it was given to the core exactly as often as it arrived — none dropped,
+none duplicated — once the cache has been flushed.
 -/
 namespace Utcp.Props.C20
 open Utcp Utcp.Gen
@@ -145,5 +147,128 @@ theorem core_assigns_peeked_id (e : Env) (c : Conn) (bits : Bits) (h : NotifHead
 
 /-! non-vacuity -/
 example : insertAll [(3, [3]), (1, [1]), (2, [2]), (1, [1])] [] = [(1, [1]), (1, [1]), (2, [2]), (3, [3])] := by decide
+
+/-! ## every history: the wrapper neither drops nor duplicates a datagram -/
+
+/-- `flushCache` with a ghost: the datagrams handed to the core, in the order they were handed over -/
+def flushCacheG {T} (tm : TimeOps T) (e : Env) (fuel : Nat) (w : Wrapped) (rng : Rng) (forced : Bool) (fed : List (List UInt8)) :
+    Wrapped × Rng × List (List UInt8) :=
+  match fuel with
+  | 0 => (w, rng, fed)
+  | fuel+1 =>
+    match w.cache with
+    | [] => (w, rng, fed)
+    | (pid, d) :: rest =>
+      let expected := w.ep.c.inPacketId + 1
+      if !forced && expected != -1 && decide (pid > expected) then (w, rng, fed) else
+      let (ep, rng, _) := w.ep.incoming tm e rng d
+      flushCacheG tm e fuel { ep := ep, cache := rest } rng forced (fed ++ [d])
+
+theorem flushCacheG_eq {T} (tm : TimeOps T) (e : Env) (fuel : Nat) : ∀ (w : Wrapped) (rng : Rng) (forced : Bool) (fed : List (List UInt8)),
+    ((flushCacheG tm e fuel w rng forced fed).1, (flushCacheG tm e fuel w rng forced fed).2.1) = w.flushCache tm e fuel rng forced := by
+  induction fuel with
+  | zero => intros; rfl
+  | succ f ih =>
+    intro w rng forced fed
+    unfold flushCacheG Wrapped.flushCache
+    cases hc : w.cache with
+    | nil => rfl
+    | cons p rest =>
+      obtain ⟨pid, d⟩ := p
+      dsimp only
+      by_cases hcond : (!forced && w.ep.c.inPacketId + 1 != -1 && decide (pid > w.ep.c.inPacketId + 1)) = true
+      · simp only [hcond, if_true]
+      · simp only [hcond, Bool.false_eq_true, if_false]
+        exact ih _ _ _ _
+
+/-- a flush only moves datagrams from the front of the cache to the core: what was fed so far followed by what is still cached
+is unchanged -/
+theorem flushCacheG_conserves {T} (tm : TimeOps T) (e : Env) (fuel : Nat) : ∀ (w : Wrapped) (rng : Rng) (forced : Bool) (fed : List (List UInt8)),
+    (flushCacheG tm e fuel w rng forced fed).2.2 ++ (flushCacheG tm e fuel w rng forced fed).1.cache.map (·.2) = fed ++ w.cache.map (·.2) := by
+  induction fuel with
+  | zero => intros; rfl
+  | succ f ih =>
+    intro w rng forced fed
+    unfold flushCacheG
+    cases hc : w.cache with
+    | nil => simp [hc]
+    | cons p rest =>
+      obtain ⟨pid, d⟩ := p
+      dsimp only
+      by_cases hcond : (!forced && w.ep.c.inPacketId + 1 != -1 && decide (pid > w.ep.c.inPacketId + 1)) = true
+      · simp only [hcond, if_true, hc]
+      · simp only [hcond, Bool.false_eq_true, if_false]
+        rw [ih]; simp
+
+/-- `conn::incoming` with the ghost -/
+def incomingG {T} (tm : TimeOps T) (e : Env) (w : Wrapped) (rng : Rng) (d : List UInt8) (fed : List (List UInt8)) : Wrapped × Rng × List (List UInt8) :=
+  let pid := w.ep.peek e d
+  if pid ≤ 0 then
+    let (ep, rng, _) := w.ep.incoming tm e rng d
+    ({ w with ep := ep }, rng, fed ++ [d])
+  else
+    let w := { w with cache := cacheInsert pid d w.cache }
+    flushCacheG tm e w.cache.length w rng false fed
+
+theorem incomingG_eq {T} (tm : TimeOps T) (e : Env) (w : Wrapped) (rng : Rng) (d : List UInt8) (fed : List (List UInt8)) :
+    ((incomingG tm e w rng d fed).1, (incomingG tm e w rng d fed).2.1) = w.incoming tm e rng d := by
+  unfold incomingG Wrapped.incoming
+  dsimp only
+  split
+  · rfl
+  · exact flushCacheG_eq tm e _ _ _ _ _
+
+/-- one arrival: the datagrams fed plus the datagrams cached are, up to order, the previous ones plus the new one -/
+theorem incomingG_conserves {T} (tm : TimeOps T) (e : Env) (w : Wrapped) (rng : Rng) (d : List UInt8) (fed : List (List UInt8)) :
+    ((incomingG tm e w rng d fed).2.2 ++ (incomingG tm e w rng d fed).1.cache.map (·.2)).Perm (d :: (fed ++ w.cache.map (·.2))) := by
+  unfold incomingG
+  dsimp only
+  split
+  · simp only
+    refine List.Perm.trans ?_ (List.perm_middle (l₁ := fed) (a := d) (l₂ := w.cache.map (·.2)))
+    simp
+  · rw [flushCacheG_conserves]
+    have hp := (cacheInsert_perm (w.ep.peek e d) d w.cache).map (·.2)
+    simp only [List.map_cons] at hp
+    exact (List.Perm.append_left fed hp).trans (List.perm_middle (l₁ := fed) (a := d) (l₂ := w.cache.map (·.2)))
+
+/-- a whole sequence of arrivals through the wrapper -/
+def arrivals {T} (tm : TimeOps T) (e : Env) : Wrapped → Rng → List (List UInt8) → List (List UInt8) → Wrapped × Rng × List (List UInt8)
+  | w, rng, fed, [] => (w, rng, fed)
+  | w, rng, fed, d :: ds => let r := incomingG tm e w rng d fed; arrivals tm e r.1 r.2.1 r.2.2 ds
+
+theorem arrivals_conserve {T} (tm : TimeOps T) (e : Env) (ds : List (List UInt8)) : ∀ (w : Wrapped) (rng : Rng) (fed : List (List UInt8)),
+    ((arrivals tm e w rng fed ds).2.2 ++ (arrivals tm e w rng fed ds).1.cache.map (·.2)).Perm (ds ++ (fed ++ w.cache.map (·.2))) := by
+  induction ds with
+  | nil => intro w rng fed; simp [arrivals]
+  | cons d rest ih =>
+    intro w rng fed
+    simp only [arrivals]
+    refine (ih _ _ _).trans ?_
+    refine (List.Perm.append_left rest (incomingG_conserves tm e w rng d fed)).trans ?_
+    simp only [List.cons_append]
+    exact (List.perm_middle (l₁ := rest) (a := d) (l₂ := fed ++ w.cache.map (·.2)))
+
+/-- **reordering never drops a packet**: after any sequence of arrivals through the wrapper (any order, duplicates included) and
+a forced flush, the datagrams handed to the core are exactly the datagrams that arrived — each as often as it arrived — and the
+cache is empty -/
+theorem nothing_dropped {T} (tm : TimeOps T) (e : Env) (ds : List (List UInt8)) (rng : Rng) (w0 : Wrapped) (h0 : w0.cache = []) :
+    let a := arrivals tm e w0 rng [] ds
+    let f := flushCacheG tm e a.1.cache.length a.1 a.2.1 true a.2.2
+    f.1.cache = [] ∧ f.2.2.Perm ds := by
+  intro a f
+  have hc := arrivals_conserve tm e ds w0 rng []
+  simp only [h0, List.map_nil, List.append_nil] at hc
+  have hf := flushCacheG_conserves tm e a.1.cache.length a.1 a.2.1 true a.2.2
+  have he := flushCacheG_eq tm e a.1.cache.length a.1 a.2.1 true a.2.2
+  have hff := (flush_forced tm e a.1 a.2.1 a.1.cache.length (Nat.le_refl _)).1
+  have hcache : f.1.cache = [] := by
+    have : f.1 = (a.1.flushCache tm e a.1.cache.length a.2.1 true).1 := congrArg Prod.fst he
+    rw [this]; exact hff
+  refine ⟨hcache, ?_⟩
+  have : f.2.2 ++ f.1.cache.map (·.2) = a.2.2 ++ a.1.cache.map (·.2) := hf
+  rw [hcache] at this
+  simp only [List.map_nil, List.append_nil] at this
+  rw [this]; exact hc
 
 end Utcp.Props.C20
